@@ -2,8 +2,8 @@
 SPECIFICATION Spec
 CONSTANTS
   MaxDepth = 9
-  DsNames = {"R180", "M360", "E360", "ZIG", "IRR", "RPT", "F2D", "BADS"}
-  StartForms = {"fresh", "imported", "saved", "sparse"}
+  DsNames = {"R180", "M360", "M72", "E360", "ZIG", "IRR", "RPT", "F2D", "BADS"}
+  StartForms = {"fresh", "imported", "saved", "cached", "sparse"}
   EmitMode = 2
   BUG_SINOHIST = FALSE
   BUG_LOAD360 = FALSE
@@ -18,17 +18,11 @@ INVARIANT Partition
 INVARIANT HistTotal
 INVARIANT HistMatchesEdges
 INVARIANT CentresAreMotors
-INVARIANT RoundTripLoads
-INVARIANT RoundTripPersist
-INVARIANT RoundTripDerived
-INVARIANT RoundTripOfb
-INVARIANT RoundTripYstep
-INVARIANT LoadIdempotent
 INVARIANT SaveTotal
 INVARIANT SaveTarget
 INVARIANT BadScanBest
 INVARIANT CompareSound
-INVARIANT CompareRoundTrip
+INVARIANT RoundTripAll
 INVARIANT CacheNoMix
 INVARIANT EmitFinal
 VIEW View
